@@ -1496,3 +1496,105 @@ def run(idx, rep, tier):
     ca_lines_routed(k, 'C05.R21')
     for o in rep.obligations[_before:]:
         o.rule = 'C05.R21'
+    rep.rule('C05.R22', 'environment="NAME=value" of the accepted key wins: '
+             'SSHServerChannel._process_env_request stores a client value '
+             'only for a name the key did not set (the store is reached '
+             'only on the "not in the key\'s environment" edge of a test) - '
+             'the option exists to pin variables such as ROLE=readonly')
+    _fi = k.func('channel.SSHServerChannel._process_env_request')
+    _g = k.cfg(_fi)
+    _st = [n for n in _g.nodes if isinstance(n.ast, ast.Assign) and any(
+        isinstance(t, ast.Subscript) and dotted(t.value) == 'self._env'
+        for t in n.ast.targets)]
+    rep.floor('C05.R22', 'client env stores', len(_st), 1)
+
+    def _free(x):
+        a = x.ast
+        if x.kind == 'atom' and isinstance(a, ast.Compare) and \
+                len(a.ops) == 1 and dotted(a.left) == 'key' and \
+                (dotted(a.comparators[0]) or '').startswith('self._'):
+            if isinstance(a.ops[0], ast.In):
+                return False
+            if isinstance(a.ops[0], ast.NotIn):
+                return True
+        return None
+    for _n in _st:
+        _w = _g.guarded_by(_n.id, _free)
+        rep.check(_w is None, 'C05.R22',
+                  key(_fi, 'key environment not overridden'),
+                  'self._env[key] = value only for names the key left free',
+                  'authorized_keys environment="ROLE=readonly", client env '
+                  'request ROLE=admin: the session runs with ROLE=admin',
+                  k.loc(_fi, _n), _g.describe_path(_w) if _w else None)
+    rep.rule('C05.R23', 'authorized_keys options the server does not '
+             'implement are not silently dropped: on the way from the '
+             'option text to the accepted entry some test compares the '
+             'option name with the names that are implemented and refuses '
+             'the line otherwise (sshd: "bad options", key not accepted) - '
+             'necessary condition only: OptionsParser._add_option / '
+             '_SSHAuthorizedKeyEntry contain a membership test of the name '
+             'on whose failing edge the entry is rejected; today `restrict` '
+             'and `expiry-time="20000101"` are accepted and ignored')
+    _cls = k.idx.cls('auth_keys._SSHAuthorizedKeyEntry')
+    _fns = [k.func('misc.OptionsParser._add_option')] + [
+        m for m in _cls.methods.values()]
+    _found = False
+    for _f in _fns:
+        _g = k.cfg(_f)
+        for _a in _g.nodes:
+            e = _a.ast
+            if _a.kind != 'atom' or not isinstance(e, ast.Compare) or \
+                    len(e.ops) != 1 or not isinstance(
+                        e.ops[0], (ast.In, ast.NotIn)):
+                continue
+            if dotted(e.left) not in ('option', 'name') or \
+                    dotted(e.comparators[0]) in ('self._handlers',
+                                                 'self.options'):
+                continue
+            _rej = True if isinstance(e.ops[0], ast.NotIn) else False
+            for _b, _lab in _g.succ[_a.id]:
+                if _lab is _rej and (
+                        _g.nodes[_b].kind == 'raise_stmt' or
+                        _g.path(_b, _g.exit, follow_exc=False) is None):
+                    _found = True
+    rep.check(_found, 'C05.R23',
+              'auth_keys._SSHAuthorizedKeyEntry|unknown options refused',
+              'option names are checked against the implemented set',
+              'no test of the option name against the implemented set: a '
+              'line `restrict ssh-ed25519 ...` still gets a pty and '
+              'direct-tcpip, `expiry-time="20000101" ...` is still '
+              'admitted', 'asyncssh/auth_keys.py')
+    rep.rule('C05.R24', 'keyboard-interactive verdicts: in '
+             '_ServerKbdIntAuth._send_challenge, send_success() is reached '
+             'only on the false edge of an isinstance test that covers '
+             'tuple and list - a challenge the application returns as a '
+             'list is a challenge to send, not the verdict "accepted"')
+    _fs = k.func('auth._ServerKbdIntAuth._send_challenge')
+    _gs = k.cfg(_fs)
+    _succ = [n for n, c in k.calls_named(_fs, 'send_success', 'self')]
+    rep.floor('C05.R24', 'success sites in _send_challenge', len(_succ), 1)
+
+    def _not_seq(x):
+        a = x.ast
+        if x.kind == 'atom' and is_call(a, 'isinstance') and \
+                len(a.args) == 2 and dotted(a.args[0]) == 'challenge':
+            t = a.args[1]
+            names = {dotted(e) for e in t.elts} if isinstance(
+                t, ast.Tuple) else {dotted(t)}
+            if {'tuple', 'list'} <= names or names & {
+                    'Sequence', 'collections.abc.Sequence'}:
+                return False
+        return None
+    for _n in _succ:
+        _w = _gs.guarded_by(_n.id, _not_seq)
+        rep.check(_w is None, 'C05.R24',
+                  key(_fs, 'a list challenge is not a verdict'),
+                  'success only when the value is neither tuple nor list',
+                  'get_kbdint_challenge() returning [name, instruction, '
+                  'lang, prompts] falls into `elif challenge: '
+                  'send_success()`: the user is authenticated with no '
+                  'INFO_REQUEST and no call of the validator',
+                  k.loc(_fs, _n), _gs.describe_path(_w) if _w else None)
+    from .shared import share
+    from .c17 import r3_case as _c17r3c
+    share(k, 'C05.R25', 'restrictions of the accepted key are found whatever their spelling (= clause of C17.R3): check_key_permission / get_key_option look options up by lower-cased name, as the parser stores them (no-X11-forwarding)', _c17r3c, keep=lambda key: 'lookup by lower-cased name' in key)
